@@ -226,6 +226,15 @@ pub fn run(c: &mut Ctx) {
         fl.hit(c, "NaiveDateTime::MIN/MAX are not the first/last second of the year range", &format!("{} {}", show_dt(&NaiveDateTime::MIN), show_dt(&NaiveDateTime::MAX)));
     }
 
+    // the epoch constant
+    {
+        let e = DateTime::<Utc>::UNIX_EPOCH;
+        if inst_ns(&e.naive_utc()) != 0 || guard(|| e.timestamp()) != Ok(0) || guard(|| DateTime::from_timestamp(0, 0)) != Ok(Some(e)) {
+            fl.hit(c, "DateTime::UNIX_EPOCH is not 1970-01-01T00:00:00Z / not timestamp 0", &show_dt(&e.naive_utc()));
+        }
+        c.op(&format!("ts.get {}", show_dt(&e.naive_utc())), "0 0 0 0 0 0 0");
+    }
+
     // ======== from_timestamp(secs, nsecs) ======================================================
     let mut cases: Vec<(i64, u32)> = vec![];
     for &p in &pts {
@@ -424,16 +433,29 @@ pub fn run(c: &mut Ctx) {
     // ======== accessors on arbitrary representable values =====================================
     let mut vals: Vec<NaiveDateTime> = vec![NaiveDateTime::MIN, NaiveDateTime::MAX];
     {
-        // both ends of the i64-nanosecond window, exactly, one ns inside and one ns outside
-        let a = DateTime::from_timestamp_nanos(i64::MIN).naive_utc();
-        let b = DateTime::from_timestamp_nanos(i64::MAX).naive_utc();
-        let ns1 = chrono::TimeDelta::nanoseconds(1);
-        vals.extend([a, a + ns1, a - ns1, b, b - ns1, b + ns1]);
-        // leap-second representations around the lower end (the workaround's `timestamp + 1` step)
-        for dt in [a, a - chrono::TimeDelta::seconds(1), a - chrono::TimeDelta::seconds(2), b, b - chrono::TimeDelta::seconds(1)] {
+        // both ends of the i64-nanosecond window (i64::MIN ns = 1677-09-21T00:12:43.145224192,
+        // i64::MAX ns = 2262-04-11T23:47:16.854775807), one ns inside and one ns outside, built from
+        // calendar fields only; plus leap-second representations on the seconds around them (the
+        // workaround's `timestamp + 1` step)
+        let mk = |y: i32, m: u32, d: u32, s: u32, f: u32| {
+            NaiveDateTime::new(
+                NaiveDate::from_ymd_opt(y, m, d).unwrap(),
+                NaiveTime::from_num_seconds_from_midnight_opt(s, 0).unwrap().with_nanosecond(f).unwrap(),
+            )
+        };
+        for f in [145_224_192u32, 145_224_193, 145_224_191] {
+            vals.push(mk(1677, 9, 21, 763, f));
+        }
+        for f in [854_775_807u32, 854_775_806, 854_775_808] {
+            vals.push(mk(2262, 4, 11, 85_636, f));
+        }
+        for (y, m, d, s) in [(1677, 9, 21, 763u32), (1677, 9, 21, 762), (1677, 9, 21, 761), (2262, 4, 11, 85_636), (2262, 4, 11, 85_635)] {
             for f in [1_000_000_000u32, 1_145_224_191, 1_145_224_192, 1_145_224_193, 1_854_775_807, 1_854_775_808, 1_999_999_999] {
-                vals.push(dt.with_nanosecond(f).unwrap());
+                vals.push(mk(y, m, d, s, f));
             }
+        }
+        if inst_ns(&vals[2]) != i64::MIN as i128 || inst_ns(&vals[5]) != i64::MAX as i128 {
+            fl.hit(c, "harness self-check: the window-end values are misplaced", "");
         }
     }
     let n_vals = c.n(200_000, 2_400_000);
@@ -567,8 +589,8 @@ pub fn run(c: &mut Ctx) {
             }
         }
     }
-    c.sample(&format!("ts.get {} -> nanos {:?}", show_dt(&vals[2]), vals[2].and_utc().timestamp_nanos_opt()));
-    c.sample(&format!("ts.get {} -> nanos {:?}", show_dt(&vals[4]), vals[4].and_utc().timestamp_nanos_opt()));
+    c.sample(&format!("ts.get {} -> nanos {}", show_dt(&vals[2]), gs(|| vals[2].and_utc().timestamp_nanos_opt(), opt)));
+    c.sample(&format!("ts.get {} -> nanos {}", show_dt(&vals[4]), gs(|| vals[4].and_utc().timestamp_nanos_opt(), opt)));
 
     // ======== SystemTime -> DateTime<Utc> =======================================================
     let n_st = c.n(80_000, 800_000);
